@@ -32,8 +32,41 @@ RDiag(what, x) == PrintT(ToJson([l |-> l, prog |-> prog, what |-> what, detail |
 SecInit == [i \in 1..NSec |-> InitState(Buckets, Keys, Deviations)]
 RTInit == TInit /\ Sec = SecInit /\ umap = <<>> /\ serr = [i \in 1..NSec |-> ""]
 
+\* ---- a bulk delete line: validated like TCall validates a call, with BulkDelete in place of Pithos!Apply,
+\* and with the per-entry results (key, deleted, error code) equal to the model's
+BA(St, c) == [s |-> BulkDelete(St, c).s, r |-> BulkDelete(St, c).r]
+IsBulk(e) == e.call.op = "DeleteObjects"
+LEnts(es) == [i \in 1..Len(es) |-> [k |-> es[i].k, deleted |-> es[i].deleted, code |-> es[i].code]]
+BFirstMatch(e) ==
+  IF \E i \in 1..Len(Cands) : StepMatches(e, BA(With(Cands[i]), e.call))
+  THEN CHOOSE i \in 1..Len(Cands) :
+         /\ StepMatches(e, BA(With(Cands[i]), e.call))
+         /\ \A j \in 1..(i - 1) : ~StepMatches(e, BA(With(Cands[j]), e.call))
+  ELSE 0
+MatchOf(e) == IF IsBulk(e) THEN BFirstMatch(e) ELSE FirstMatch(e)
+TBulk ==
+  LET e == Trace[l]
+      m == BFirstMatch(e)
+      D == IF m = 0 THEN Deviations ELSE Cands[m]
+      b == BulkDelete(With(D), e.call)
+      a == [s |-> b.s, r |-> b.r]
+      E == etags \cup ETagPairs(a.s, e.views)
+      M == mtimes \cup MTimePairs(a.s, e.views)
+  IN
+  /\ IF m = 0
+     THEN Diag(l, IF ~ResAgrees(e.call, a.r, LRes(e)) THEN "result"
+                  ELSE IF LViews(e.views) # MViews(a.s) THEN "views"
+                  ELSE IF ~Functional(M) THEN "mtime" ELSE "etag", a, e) /\ FALSE
+     ELSE IF ~FlagsOK(e.views) THEN Diag(l, "flags", a, e) /\ FALSE
+     ELSE IF LEnts(e.entries) # b.ents
+     THEN RDiag("bulk-entries", [model |-> b.ents, logged |-> LEnts(e.entries)]) /\ FALSE
+     ELSE TRUE
+  /\ S' = [a.s EXCEPT !.dev = Deviations] /\ res' = a.r /\ hist' = <<e.call>>
+  /\ etags' = E /\ mtimes' = M
+  /\ prog' = prog /\ taken' = taken /\ l' = l + 1
+
 RCall(e) ==
-  LET m == FirstMatch(e)
+  LET m == MatchOf(e)
       D == IF m = 0 THEN Deviations ELSE Cands[m]
       r == RepApply(With(D), [i \in 1..NSec |-> [Sec[i] EXCEPT !.dev = D]], umap, e.call)
       prim == VProj(LViews(e.views_p))
@@ -57,7 +90,8 @@ RCall(e) ==
      ELSE TRUE
 
 RTNext ==
-  /\ TNext
+  /\ l <= Len(Trace)
+  /\ IF Trace[l].call.op = "DeleteObjects" THEN TBulk ELSE TNext
   /\ LET e == Trace[l] IN
      IF e.call.op = "Reset" THEN Sec' = SecInit /\ umap' = <<>> /\ serr' = [i \in 1..NSec |-> ""]
      ELSE IF e.fault # "none" THEN UNCHANGED <<Sec, umap, serr>>
